@@ -19,6 +19,7 @@ import (
 	"log"
 	"math/big"
 	"os"
+	"os/exec"
 	"path/filepath"
 	"regexp"
 	"sort"
@@ -686,6 +687,28 @@ func init() {
 			for i := 0; i < c.Pick(500, 5000); i++ {
 				ls = append(ls, "lex "+hx([]byte(g.program())))
 			}
+			// the command line front end dev/asm: plain, and with the flag preprocessor (-f) on sources that name flags
+			for i := 0; i < c.Pick(25, 400); i++ {
+				g.risk = []string{"", "", "fmt"}[g.r(3)]
+				var src string
+				for k := 0; k < 1+g.r(5); k++ {
+					src += g.line(asmOps[g.r(len(asmOps))])
+				}
+				ls = append(ls, "cli "+hx([]byte(src)))
+				g.risk = ""
+				src = ""
+				for k := 0; k < 1+g.r(5); k++ {
+					switch g.r(3) {
+					case 0:
+						src += fmt.Sprintf("CATCH %s %s %d\n", g.node(), []string{"alpha", "beta", "gamma", "12", "8"}[g.r(5)], g.r(2))
+					case 1:
+						src += fmt.Sprintf("CROAK %s %d\n", []string{"alpha", "beta", "gamma", "9"}[g.r(4)], g.r(2))
+					default:
+						src += g.line(asmOps[g.r(len(asmOps))])
+					}
+				}
+				ls = append(ls, "clif "+hx([]byte(src)))
+			}
 			// numeric conversions: all digit strings up to length 3, plus boundaries
 			for _, bits := range []int{8, 32} {
 				var rec func(p string)
@@ -731,6 +754,33 @@ func init() {
 					return "ok " + hx(out)
 				}
 				return res
+			case "cli", "clif":
+				// the real command: dev/asm [-f flags.csv] <file>, bytecode on stdout
+				src := unhx(f[1])
+				self, _ := os.Executable()
+				bin := filepath.Join(filepath.Dir(self), "viseasm")
+				work, err := os.MkdirTemp("", "vasm-")
+				if err != nil {
+					return "bad-op"
+				}
+				defer os.RemoveAll(work)
+				fp := filepath.Join(work, "src.vis")
+				os.WriteFile(fp, src, 0o600)
+				args := []string{fp}
+				if f[0] == "clif" {
+					pp := filepath.Join(work, "pp.csv")
+					os.WriteFile(pp, []byte("flag,alpha,8,first\nflag,beta,9\nflag,gamma,300,third\n"), 0o600)
+					args = []string{"-f", pp, fp}
+				}
+				cmd := exec.Command(bin, args...)
+				var so bytes.Buffer
+				cmd.Stdout = &so
+				if err := cmd.Run(); err != nil {
+					c.Count(f[0] + ":err")
+					return "err"
+				}
+				c.Count(f[0] + ":ok")
+				return "ok " + hx(so.Bytes())
 			case "lex":
 				src := unhx(f[1])
 				lx, err := asmLexDef.LexString("x", string(src))
